@@ -114,7 +114,8 @@ class CSSCheckMixin:
                             "code": "css-bad-content",
                         }
                     )
-                elif end > 0 and split.group("semi") is None:
+                elif end > 0 and m.group("prop") and split.group("semi") is None:
+                    # only between declarations, not for trailing white-space
                     errors = errors or []
                     errors.append(
                         {
